@@ -110,6 +110,28 @@ func (c *Ctx) c06Misc(f *ircFacts, fns []*load.FuncInfo, arm *load.FuncInfo) {
 				for _, fv := range need {
 					v := litField(cl, fv.Name())
 					ok := v != nil && !isNilIdent(info, v)
+					// a local variable must be non-nil by every definition (make / literal), not a bare `var m map…`
+					if id, isID := ast.Unparen(v).(*ast.Ident); ok && isID {
+						if o, isVar := astx.Obj(info, id).(*types.Var); isVar && !o.IsField() && o.Parent() != o.Pkg().Scope() {
+							defs := defsOf(info, fi.Node(), o)
+							if len(defs) > 0 {
+								for _, d := range defs {
+									nonNil := false
+									if d != nil {
+										switch x := ast.Unparen(d).(type) {
+										case *ast.CallExpr:
+											nonNil = astx.Builtin(info, x) == "make" || astx.Builtin(info, x) == ""
+										case *ast.CompositeLit:
+											nonNil = true
+										}
+									}
+									if !nonNil {
+										ok = false
+									}
+								}
+							}
+						}
+					}
 					r.Check(ok, "C06.G5", fi.Name(), typ+" literal initialises map "+fv.Name(), c.P.Pos(cl.Pos()), "key present",
 						"a "+typ+" is constructed without initialising its "+fv.Name()+" map, which handlers assign into: assignment to entry in nil map panics")
 				}
